@@ -624,6 +624,17 @@ func reifyArray(
 	to reflect.Value, tTo reflect.Type,
 	val value,
 ) (reflect.Value, Error) {
+	if isNil(val) {
+		// no setting (an array type with InitDefaults is visited all the
+		// same): the array as it is, or as InitDefaults makes it - not a list
+		// of the wrong length
+		v := tryInitDefaults(to)
+		if err := tryRecursiveValidate(v, opts.opts, opts.validators); err != nil {
+			return reflect.Value{}, raiseValidation(val.Context(), val.meta(), "", err)
+		}
+		return v, nil
+	}
+
 	arr, viaRef, err := castArrRef(opts.opts, val)
 	if err != nil {
 		return reflect.Value{}, err
